@@ -294,7 +294,50 @@ Mk(d, S, lowerX, rev, m, base, h, refResp, refSchema, refHeader, slice) ==
 
 Dialects == {"3.0", "2.0"}
 Dialects3 == {"3.0", "2.0", "3.1"}
+
+(* ---- formats: a documented `format` the oracle decides is enforced wherever it is documented - headers AND bodies ---- *)
+UuidGood == <<49, 50, 51, 101, 52, 53, 54, 55, 45, 101, 56, 57, 98, 45, 49, 50, 100, 51, 45, 97, 52, 53, 54, 45, 52, 50, 54, 54, 49, 52, 49, 55, 52, 48, 48, 48>>
+UuidBad == <<110, 111, 116, 45, 97, 45, 117, 117, 105, 100>>                 \* not-a-uuid
+DateGood == <<50, 48, 50, 49, 45, 48, 50, 45, 48, 51>>                        \* 2021-02-03
+DateBad == <<50, 48, 50, 49, 45, 49, 51, 45, 52, 53>>                         \* 2021-13-45
+DtGood == <<50, 48, 50, 49, 45, 48, 50, 45, 48, 51, 84, 48, 52, 58, 48, 53, 58, 48, 54, 90>>   \* 2021-02-03T04:05:06Z
+DtBad == <<50, 48, 50, 49, 45, 48, 50, 45, 48, 51, 32, 50, 53, 104>>          \* 2021-02-03 25h
+Ip4Good == <<49, 46, 50, 46, 51, 46, 52>>                                     \* 1.2.3.4
+Ip4Bad == <<49, 46, 50, 46, 51, 46, 57, 57, 57>>                              \* 1.2.3.999
+NFmt == <<88, 45, 70, 109, 116>>                                             \* X-Fmt
+Formats == {"uuid", "date", "date-time", "ipv4"}
+FmtTexts(f) == CASE f = "uuid" -> {UuidGood, UuidBad} [] f = "date" -> {DateGood, DateBad}
+                 [] f = "date-time" -> {DtGood, DtBad} [] f = "ipv4" -> {Ip4Good, Ip4Bad}
+FmtSchema(f) == [sk |-> "schema", type |-> <<"string">>, format |-> f]
+FmtName(f) == "Fmt-" \o f
+MkFmt(d, S, f, rs) ==
+  LET keys == KeysOf(S, FALSE, FALSE)
+  IN [id |-> <<d, SortedSeq(S), f, rs, "formats">>, dialect |-> d, mts |-> <<MTJson>>, refResp |-> FALSE, refSchema |-> rs, refHeader |-> FALSE,
+      slice |-> "formats", fmt |-> f,
+      resps |-> [i \in DOMAIN keys |->
+                   [key |-> keys[i],
+                    schemas |-> <<[has |-> TRUE, name |-> FmtName(f), s |-> Sub(d, rs, FmtName(f), FmtSchema(f))]>>,
+                    headers |-> <<[name |-> NFmt, required |-> FALSE, schema |-> [has |-> TRUE, s |-> FmtSchema(f)]]>>]]]
+
+(* ---- a description split over files: the response of each operation is a reference into ITS file, and every file has ---- *)
+(* ---- its own `#/definitions/Item` (a different type in each): a local reference belongs to the file it is written in ---- *)
+Tgate == <<103, 97, 116, 101>>
+Titem == <<105, 116, 101, 109>>
+Files == <<"a", "b", "c">>
+ItemType(f) == CASE f = "a" -> "integer" [] f = "b" -> "string" [] f = "c" -> "boolean"
+MultiSchema == [sk |-> "schema", type |-> <<"object">>, required |-> <<Tgate, Titem>>,
+                props |-> [k |-> <<Tgate, Titem>>, v |-> <<[sk |-> "schema", type |-> <<"string">>, format |-> "verif-gate"],
+                                                           [sk |-> "schema", ref |-> "#/definitions/Item"]>>]]
+MkMulti(d, f) ==
+  [id |-> <<d, f, "multifile">>, dialect |-> d, mts |-> <<MTJson>>, refResp |-> TRUE, refSchema |-> FALSE, refHeader |-> FALSE,
+   slice |-> "multifile", file |-> f,
+   resps |-> <<[key |-> K200, schemas |-> <<[has |-> TRUE, name |-> "Multi", s |-> MultiSchema]>>, headers |-> <<>>]>>]
+MultiBodies == {[kind |-> "json", v |-> Obj(<<Tgate, Titem>>, <<Str1(Ta), Int1(1)>>)],
+                [kind |-> "json", v |-> Obj(<<Tgate, Titem>>, <<Str1(Ta), Str1(Ta)>>)],
+                [kind |-> "json", v |-> Obj(<<Tgate, Titem>>, <<Str1(Ta), [t |-> "bool", v |-> TRUE]>>)]}
 Defns ==
+  {MkFmt(d, S, f, rs) : d \in Dialects3, S \in {{1}, {3, 6}}, f \in Formats, rs \in BOOLEAN}
+  \cup {MkMulti(d, Files[i]) : d \in Dialects3, i \in DOMAIN Files} \cup
   (* keys: every key set, two media types with different schemas (3.0) / one schema (2.0) *)
   {Mk(d, S, FALSE, FALSE, IF d = "2.0" THEN 2 ELSE 3, 0, 1, FALSE, FALSE, FALSE, "keys") :
        d \in Dialects, S \in {T \in KeySets : Thorough \/ Cardinality(T) <= 2 \/ 6 \in T \/ 3 \in T}}
@@ -336,7 +379,12 @@ StatusesOf(sl) == IF sl \in {"keys", "headers"} \/ (Thorough /\ sl = "media") TH
                   ELSE IF sl = "media" THEN {200, 404} ELSE IF Thorough THEN {200, 404, 500} ELSE {200, 500}
 CtOptionsOf(sl) == IF Thorough \/ sl = "media" THEN CtOptions ELSE {"doc1", "doc2"}
 Resps(d) ==
-  IF d.slice = "headers"
+  IF d.slice = "formats"
+  THEN {[status |-> s, ct |-> CtText(d, "doc1"), hdrs |-> hs, body |-> [kind |-> "json", v |-> Str1(b)]] :
+          s \in {200, 404}, b \in FmtTexts(d.fmt), hs \in {<<>>} \cup {<<[name |-> NFmt, value |-> v]>> : v \in FmtTexts(d.fmt)}}
+  ELSE IF d.slice = "multifile"
+  THEN {[status |-> 200, ct |-> CtText(d, "doc1"), hdrs |-> <<>>, body |-> b] : b \in MultiBodies}
+  ELSE IF d.slice = "headers"
   THEN {[status |-> s, ct |-> CtText(d, o), hdrs |-> hs, body |-> b] :
           s \in Statuses, o \in {"doc1", "absent"}, b \in FewBodies, hs \in HeaderSendings(d.resps[1].headers)}
   ELSE {[status |-> s, ct |-> CtText(d, o), hdrs |-> <<>>, body |-> b] :
@@ -346,7 +394,11 @@ Resps(d) ==
 VARIABLES defn, resp, exp
 vars == <<defn, resp, exp>>
 NoResp == [status |-> 0]
-Defs(d) == DefsOf(d.dialect, d.refSchema)
+Defs(d) == IF d.slice = "multifile"
+           THEN [x \in {"#/definitions/Item", "nodefs"} |-> IF x = "nodefs" THEN [sk |-> "opaque"] ELSE [sk |-> "schema", type |-> <<ItemType(d.file)>>]]
+           ELSE IF d.slice = "formats"
+           THEN [x \in {RefTo(d.dialect, FmtName(d.fmt)).ref, "nodefs"} |-> IF x = "nodefs" THEN [sk |-> "opaque"] ELSE FmtSchema(d.fmt)]
+           ELSE DefsOf(d.dialect, d.refSchema)
 Init == defn \in Defns /\ resp = NoResp /\ exp = [k \in Kinds |-> "F"]
 Pick == /\ resp = NoResp /\ resp' \in Resps(defn) /\ UNCHANGED defn
         /\ exp' = Expected(defn, Defs(defn), resp')
